@@ -198,9 +198,13 @@ class NodeSliver(BaseSliver):
 
                 # compare child interfaces
                 if cA.get_type() == ComponentType.SmartNIC:
-                    cAns = list(cA.network_service_info.network_services.values())[0]
-                    cBns = list(cB.network_service_info.network_services.values())[0]
-                    if cAns.diff(cBns):
+                    # a card described without its network service has no interfaces to compare
+                    cAnss = list(cA.network_service_info.network_services.values()) if cA.network_service_info else []
+                    cBnss = list(cB.network_service_info.network_services.values()) if cB.network_service_info else []
+                    if len(cAnss) and len(cBnss):
+                        if cAnss[0].diff(cBnss[0]):
+                            flag |= WhatsModifiedFlag.SUB_INTERFACES
+                    elif len(cAnss) != len(cBnss):
                         flag |= WhatsModifiedFlag.SUB_INTERFACES
 
                 if flag != WhatsModifiedFlag.NONE:
